@@ -66,3 +66,46 @@ func genFrameHarnesses(c *CheckCtx, prefix, call string) error {
 	c.Extra["kind_version_harnesses"] = n
 	return genEqFile(c)
 }
+
+// genC04 generates the per-(opcode, version) body harnesses and per-(kind, version) havoc harnesses.
+func genC04(c *CheckCtx) error {
+	pkgs, err := loadTypes(c.Repo, "./primitive")
+	if err != nil {
+		return err
+	}
+	var ops []string
+	for _, e := range collectEnums(pkgs[0].Types) {
+		if e.Name == "OpCode" {
+			ops = e.Consts
+		}
+	}
+	var sb strings.Builder
+	sb.WriteString("package frame\n\nimport \"github.com/datastax/go-cassandra-native-protocol/primitive\"\n\n")
+	n := 0
+	for _, op := range ops {
+		for _, v := range versionIdents {
+			fmt.Fprintf(&sb, "func VerifC04_NoPanic_Body_%s_%s() { verifNoPanicBody(primitive.%s, primitive.%s) }\n", strings.TrimPrefix(op, "OpCode"), versionShort[v], v, op)
+			n++
+		}
+	}
+	kinds, err := readKinds(c.Verif)
+	if err != nil {
+		return err
+	}
+	for _, k := range kinds {
+		for _, v := range k.Versions {
+			if c.Tier == "quick" && v != k.Versions[len(k.Versions)-1] {
+				continue // quick: the last version of each kind (thorough: every version)
+			}
+			fmt.Fprintf(&sb, "func VerifC04_NoPanic_Havoc_%s_%s() { verifNoPanicHavoc(%q, primitive.%s) }\n", k.Name, versionShort[v], k.Name, v)
+			n++
+		}
+	}
+	f := filepath.Join(c.GenDir, "frame_zz_verif_c04_gen.go")
+	if err := os.WriteFile(f, []byte(sb.String()), 0o644); err != nil {
+		return err
+	}
+	c.Overlay[filepath.Join(c.Repo, "frame", "zz_verif_c04_gen.go")] = f
+	c.Extra["opcode_version_and_kind_version_harnesses"] = n
+	return nil
+}
